@@ -661,7 +661,7 @@ func TestVerifC13(t *testing.T) {
 		return verifCCDBPath(dir, dbn)
 	}
 
-	total := vc.N(320, 8000)
+	total := vc.N(320, 24000)
 	for i := 0; i < total; i++ {
 		if !vc.Mine(i) {
 			continue
